@@ -441,6 +441,37 @@ def probe_structured(ctx, rng):
                           dict(cfg, axes=[hexarr(a) for a in axes]), key="struct:%s" % name)
 
 
+def probe_sphere(ctx, rng):
+    """RNG.sample_sphere is the parameterisation the variance-split theorems integrate over:
+       2-D (cos t, sin t), t = uniform(0, 2 pi);  3-D (sqrt(1-m^2) cos t, sqrt(1-m^2) sin t, m), m = uniform(-1, 1).
+       The generator's random stream is replayed and the formulas compared bitwise."""
+    from gstools.random import RNG
+    for dim in (2, 3):
+        for _ in range(3):
+            seed = int(rng.integers(0, 2 ** 31 - 1)); n = int(rng.choice([1, 7, 200]))
+            try:
+                r = RNG(seed)
+                mst = r._master_rng._master_rng_fct
+                st = mst.get_state()
+                c = np.asarray(r.sample_sphere(dim, n))
+                mst.set_state(st)
+                t = r.random.uniform(0.0, 2 * np.pi, n)
+                if dim == 2:
+                    ref = np.array([np.cos(t), np.sin(t)])
+                else:
+                    m = r.random.uniform(-1.0, 1.0, n)
+                    ref = np.array([np.sqrt(1.0 - m ** 2) * np.cos(t), np.sqrt(1.0 - m ** 2) * np.sin(t), m])
+            except Exception as e:
+                ctx.violation("probe: sample_sphere", "unexpected exception %r" % (e,), dict(dim=dim, seed=seed, n=n),
+                              key="sphere:exception")
+                continue
+            ctx.count(("sphere", dim, n), hist=dict(stage="sphere-parameterisation", dim=dim))
+            if c.shape != ref.shape or not C.bit_equal(c, ref):
+                ctx.violation("correspondence: RNG.sample_sphere vs the parameterisation of C16_variance_split",
+                              "directions are no longer (cos t, sin t) / (sqrt(1-m^2) cos t, sqrt(1-m^2) sin t, m) with uniform t, m",
+                              dict(dim=dim, seed=seed, n=n), key="sphere:param", no_input=True)
+
+
 # ----------------------------------------------------------------------------------------------- run
 
 def run(ctx):
@@ -458,12 +489,15 @@ def run(ctx):
         "numpy RandomState and the spectral sampling of the modes are modelled, not verified (C01/C11)",
     ]
     ctx.not_proved = [
-        "that the sampled directions are uniform and the amplitudes standard normal (RNG): hypotheses of C16_mean / C16_variance, probed statistically",
+        "that numpy's uniform/normal streams are uniform/standard normal and independent: the moment hypotheses of C16_mean / "
+        "C16_variance and the uniform weights of C16_variance_split are explicit hypotheses, probed statistically over seeds",
+        "the identification E[g(k_j)] = normalised integral over the sample_sphere parameterisation (a statement about the RNG)",
         "floating-point divergence: theorems are over R; the central-difference probe bounds the float behaviour numerically",
         "anisotropic / rotated models are outside the property (the stretched field is not solenoidal)",
     ]
     ctx.tie["IncomprRandMeth.__call__ (generator.py)"] = "hand model incompr_call/velocity + correspondence"
     ctx.tie["compiled summator .so"] = "execution: bitwise vs extracted spec and translated kernel"
+    ctx.tie["RNG.sample_sphere (directions of the modes)"] = "hand parameterisation kdir2/kdir3 + bitwise replay of the random stream"
     # coq/gen is shared with checks running concurrently (possibly on another checkout): make sure the translation
     # that was compiled is the one of THIS checkout's summator.pyx, else translate and build again
     import os
@@ -496,6 +530,7 @@ def run(ctx):
                    ("wrapper correspondence", lambda: corr_wrapper(ctx, rng, drv))] if drv is not None else []) + [
                   ("divergence probe", lambda: probe_divergence(ctx, rng)),
                   ("structured probe", lambda: probe_structured(ctx, rng)),
+                  ("sample_sphere parameterisation", lambda: probe_sphere(ctx, rng)),
                   ("ensemble probe", lambda: probe_ensemble(ctx, rng))]
         for nm, fn in stages:
             t0 = time.time()
